@@ -13,6 +13,8 @@ package c06
 import (
 	"encoding/json"
 	"fmt"
+	"math/big"
+	"sort"
 	"strings"
 	"time"
 
@@ -86,6 +88,16 @@ func specs(tier string) []spec {
 		a := []ops.Op{{K: "T", A: 1, B: 2, V: 7}, M, M, M, M}
 		b := []ops.Op{{K: "T", A: 4, B: 2, V: 9}, M, M, {K: "M", V: 1}, M, M}
 		out = append(out, spec{"d4/election-proof-differs", prefix, a, b})
+	}
+	// the abandoned branch holds the first credit an account ever got (an empty account with fused plasma receives; a new
+	// token reaches its first holders): keys the rollback has to un-create
+	{
+		pfx := []ops.Op{{K: "Call", S: "fuse", A: 0, B: 13, V: 50}, {K: "T", A: 0, B: 13, V: 77}, {K: "Call", S: "issue", A: 0, V: 1000}, M, M, M}
+		for _, d := range []int{1, 2} {
+			a := append([]ops.Op{{K: "R", A: 13}, {K: "R", A: 0}, M}, filler(d-1, 0)...)
+			b := append([]ops.Op{{K: "T", A: 4, B: 2, V: 9}, {K: "M", V: 1}}, filler(d, 1)...)
+			out = append(out, spec{fmt.Sprintf("d%d/first-credits-abandoned", d), pfx, a, b})
+		}
 	}
 	// long common prefix: views more than 360 momentums behind the frontier live in the store's second view cache
 	longPrefix := append(append([]ops.Op{}, prefix...), rep(M, 362)...)
@@ -214,16 +226,42 @@ const warmConsensus = 256 // Warm bit: consensus queries for the coming ticks be
 
 type observation struct {
 	full, cons, pool string
+	listings         string // per account: the balance listing (every token the account store reports, as ledger RPC shows it)
 	views            []string
 	height           uint64
 }
 
 func observe(n *vnode.Node, ids []types.HashHeight) observation {
-	o := observation{full: n.FullDigest(), cons: n.ConsensusDigest(6), pool: n.PoolDigest(), height: n.Height()}
+	o := observation{full: n.FullDigest(), cons: n.ConsensusDigest(6), pool: n.PoolDigest(), height: n.Height(), listings: balanceListings(n)}
 	for _, id := range ids {
 		o.views = append(o.views, n.ViewDigest(id))
 	}
 	return o
+}
+
+// balanceListings: what the account stores list as balances (iteration over the balance keys, not point reads: entries a
+// rollback un-created must not show up), at the confirmed frontier, for every harness account and embedded contract.
+func balanceListings(n *vnode.Node) string {
+	var addrs []types.Address
+	for _, u := range ops.Users {
+		addrs = append(addrs, u.Address)
+	}
+	addrs = append(addrs, types.EmbeddedContracts...)
+	var sb strings.Builder
+	for _, a := range addrs {
+		for vi, st := range []interface {
+			GetBalanceMap() (map[types.ZenonTokenStandard]*big.Int, error)
+		}{n.Chain.GetFrontierMomentumStore().GetAccountStore(a)} { // confirmed ledger only: what the pools hold is compared separately
+			m, err := st.GetBalanceMap()
+			var rows []string
+			for z, v := range m {
+				rows = append(rows, fmt.Sprintf("%v=%v", z, v))
+			}
+			sort.Strings(rows)
+			fmt.Fprintf(&sb, "%v/%d:%v:%s;", a, vi, err, strings.Join(rows, ","))
+		}
+	}
+	return sb.String()
 }
 
 func adoptedIDs(bt *built, upto uint64, extra *nom.DetailedMomentum) []types.HashHeight {
@@ -404,6 +442,9 @@ func runCase(c *xs.Ctx, r *xs.Result, bt *built, cs caseSpec, refObs observation
 				break
 			}
 		}
+	}
+	if got.listings != refObs.listings {
+		bad("balance-listings-differ", "the balance listings of the accounts differ (confirmed ledger):\n N: %s\n F: %s", got.listings, refObs.listings)
 	}
 	if got.cons != refObs.cons {
 		bad("consensus-differs", "consensus answers differ:\n N: %s\n F: %s", got.cons, refObs.cons)
